@@ -84,6 +84,7 @@ type Contract struct {
 	GuardsOn      bool
 	Callers       []string // whitelist of calling functions (nil = anyone)
 	CallersProps  []string
+	GhostBefore   []*GhostAnchor // ghost assignments executed just before the matching statement
 	GhostAfter    []*GhostAnchor // ghost assignments executed after the statement whose text starts with Anchor
 	GhostEntry    []*Effect      // ghost assignments executed at function entry (explicit instrumentation)
 	LoopInvs      []*Clause
@@ -612,6 +613,43 @@ func (cf *ContractFile) parseOne(path string) error {
 					cl.Name = fmt.Sprintf("assert.%d", len(c.AssertBefore)+1)
 				}
 				c.AssertBefore = append(c.AssertBefore, &AssertAnchor{Anchor: rest[1 : 1+j], Cl: cl})
+			case "ghostbefore":
+				// ghostbefore "<statement text prefix>" : [if COND :] LHS = RHS  (ghost assignment just before the statement)
+				if !strings.HasPrefix(rest, "\"") {
+					return fail(fmt.Errorf("ghostbefore needs a quoted anchor"))
+				}
+				jb := strings.Index(rest[1:], "\"")
+				if jb < 0 {
+					return fail(fmt.Errorf("ghostbefore: unterminated anchor"))
+				}
+				anchorB := rest[1 : 1+jb]
+				bodyB := strings.TrimSpace(strings.TrimPrefix(strings.TrimSpace(rest[2+jb:]), ":"))
+				var condB ast.Expr
+				if strings.HasPrefix(bodyB, "if ") {
+					i := strings.Index(bodyB, " : ")
+					if i < 0 {
+						return fail(fmt.Errorf("ghostbefore if without ' : '"))
+					}
+					ce, err := parser.ParseExpr(rewriteSpecSyntax(bodyB[3:i]))
+					if err != nil {
+						return fail(err)
+					}
+					condB = ce
+					bodyB = bodyB[i+3:]
+				}
+				lB, rB, okB := strings.Cut(bodyB, " = ")
+				if !okB {
+					return fail(fmt.Errorf("ghostbefore needs LHS = RHS"))
+				}
+				leB, err := parser.ParseExpr(lB)
+				if err != nil {
+					return fail(err)
+				}
+				reB, err := parser.ParseExpr(rewriteSpecSyntax(rB))
+				if err != nil {
+					return fail(err)
+				}
+				c.GhostBefore = append(c.GhostBefore, &GhostAnchor{Anchor: anchorB, Eff: &Effect{LHS: leB, RHS: reB, Src: bodyB, Cond: condB}})
 			case "ghostafter":
 				// ghostafter "<statement text prefix>" : [if COND :] LHS = RHS
 				if !strings.HasPrefix(rest, "\"") {
